@@ -7,7 +7,11 @@ between groups, nulls and large magnitudes in the source):
   oracle   ref_eval is evaluated in Coq and checked to be a `solution` (vm_compute); every returned table is compared
            with it (chk_values);
   T2       the observed run (begin order, object each step worked on, transform copies) is replayed through
-           Model/DataPlane.exec in Coq: it must succeed iff the real run succeeded and reproduce the returned columns.
+           Model/DataPlane.exec in Coq: it must succeed iff the real run succeeded and reproduce the returned columns;
+  T2       routing: Model/Routing.v computes from the exported plan and the begin order which object every step writes
+           to / reads from (registry lookup of get_cfw_uuid, first hit over tfs_ids / required_uuids): must equal the
+           observed footprints (chk_route); runs in which a deciding lookup was ambiguous (two registered objects of the
+           class hold the uuid: `ambiguous_steps`, evaluated in Coq) form the round-trip defect domain.
 """
 from __future__ import annotations
 
@@ -26,7 +30,8 @@ from harness.c08 import api_variant
 
 LEVEL = "proof"
 logging.disable(logging.CRITICAL)
-REQ = ["MV.Spec.RefEval", "MV.Spec.RefEvalWf", "MV.Model.DataPlane"]
+REQ = ["MV.Spec.RefEval", "MV.Spec.RefEvalWf", "MV.Model.DataPlane", "MV.Model.Routing"]
+CLS = {"PyArrowTable": 1, "PandasDataFrame": 2, "PythonDictFramework": 3}
 
 EXTRA = """
 Definition obs_ok (e : env) (obs : list (nat * column)) : bool :=
@@ -35,6 +40,19 @@ Definition obs_ok (e : env) (obs : list (nat * column)) : bool :=
 Definition chk_values (c : (nat * env * list fdef) * list (nat * column)) : bool :=
   match c with ((n, src, defs), obs) =>
     let e := ref_eval n src defs in wf_request src defs && solution n src defs e && obs_ok e obs end.
+(* routing: the objects each begun step wrote to / read from, predicted by Model/Routing.v from the plan and the begin order,
+   equal the observed footprints (objects named by the step that created them); no lookup fails on a step that began;
+   and the steps whose deciding lookup was ambiguous are reported back for classification *)
+Definition opt_nat_eqb (a b : option nat) : bool :=
+  match a, b with Some x, Some y => Nat.eqb x y | None, None => true | _, _ => false end.
+Definition foot_eqb (a b : foot) : bool :=
+  Nat.eqb (fst (fst a)) (fst (fst b)) && Nat.eqb (snd (fst a)) (snd (fst b)) && opt_nat_eqb (snd a) (snd b).
+Fixpoint foots_eqb (a b : list foot) : bool :=
+  match a, b with [] , [] => true | x :: r, y :: t => foot_eqb x y && foots_eqb r t | _, _ => false end.
+Definition chk_route (c : list rstep * list foot) : bool :=
+  match c with (steps, obs) => let (tr, ok) := route_all [] steps in ok && foots_eqb (map foot_of tr) obs end.
+Definition chk_noamb (c : list rstep * list foot) : bool :=
+  match ambiguous_steps [] (fst c) with [] => true | _ => false end.
 (* replay of the observed run through the data-plane model: ok? + returned columns *)
 Definition chk_exec (c : (nat * env * list fdef * list action) * (bool * list (nat * nat * column))) : bool :=
   match c with ((n, src, defs, acts), (ok, obs)) =>
@@ -210,6 +228,44 @@ def one(spec: Dict[str, Any]) -> Dict[str, Any]:
             acts.append(f"ACopy {cq_nat(src_obj[0] if src_obj else w)} {cq_nat(w)}")
     rec["acts"] = acts
     rec["ids"] = ids
+    # routing model input: the begun steps in begin order (Model/Routing.rstep) and the observed footprints with objects
+    # named by the first step that wrote to them
+    creator: Dict[int, int] = {}
+    rsteps, feet = [], []
+    routable = True
+    for sid in o["begin_order"]:
+        s = steps[sid]
+        foot = o["foot"].get(sid)
+        if foot is None or s["kind"] not in ("FG", "TFS"):
+            routable = False
+            break
+        w, reads = foot
+        creator.setdefault(w, sid)
+        rd = [x for x in reads if x != w]
+        optn = lambda v: f"(Some {cq_nat(v)})" if v is not None else "None"  # noqa: E731
+        if s["kind"] == "FG":
+            sopt = None
+            for o_ in s.get("opts") or []:
+                for k_, v_ in o_:
+                    if k_ == root.get("opt_key"):
+                        sopt = v_
+            if s["group"] == root["name"]:
+                sub = {k: v for k, v in ids.items() if k[1] == sopt}
+                rroot, rdefs = f"(Some {cq_src(sub, root)})", "[]"
+            else:
+                rroot, rdefs = "None", cq_defs(ids, spec, only=[(n_, sopt) for n_ in dict.fromkeys(s["names"])])
+            rsteps.append(f"{{| rs_sid := {cq_nat(sid)}; rs_kind := RFG; rs_cls := {CLS.get(s['cfw'], 9)}; rs_from := 0; "
+                          f"rs_any := {cq_nat(s['any_uuid'] or 0)}; rs_cir := {cq_list(cq_nat(u) for u in s['children_if_root'])}; "
+                          f"rs_tfs := {cq_list(cq_nat(u) for u in s['tfs_order'])}; rs_req := {cq_list(cq_nat(u) for u in s['req_order'])}; "
+                          f"rs_right := None; rs_link := None; rs_root := {rroot}; rs_defs := {rdefs} |}}")
+            feet.append(f"({cq_nat(sid)}, {cq_nat(creator[w])}, None)")
+        else:
+            rsteps.append(f"{{| rs_sid := {cq_nat(sid)}; rs_kind := RTFS; rs_cls := {CLS.get(s['to_cfw'], 9)}; rs_from := {CLS.get(s['from_cfw'], 9)}; "
+                          f"rs_any := 0; rs_cir := []; rs_tfs := []; rs_req := {cq_list(cq_nat(u) for u in s['req_order'])}; "
+                          f"rs_right := {optn(s.get('right_uuid'))}; rs_link := {optn(s.get('link_id'))}; rs_root := None; rs_defs := [] |}}")
+            src_c = creator.get(rd[0]) if rd else creator[w]
+            feet.append(f"({cq_nat(sid)}, {cq_nat(creator[w])}, {optn(src_c)})")
+    rec["route"] = (rsteps, feet) if routable else None
     return rec
 
 
@@ -220,14 +276,19 @@ def run(rep: vlib.Reporter, tier: str, seed: int) -> None:
     rep.proof(pr)
     pr2 = vlib.build_props("C02ref")     # ref_eval is a solution for every well-formed request; solutions are unique
     rep.proof(pr2)
-    pr.ok = pr.ok and pr2.ok
-    pr.failed_files += pr2.failed_files
+    pr3 = vlib.build_props("Routing")    # registry lookup / routing of steps to objects, composed with the data plane
+    rep.proof(pr3)
+    pr.ok = pr.ok and pr2.ok and pr3.ok
+    pr.failed_files += pr2.failed_files + pr3.failed_files
     rep.coverage["trusted_base"] += [
         "Spec/RefEval.v is the reference evaluation (the oracle of record, evaluated by vm_compute and checked to be a solution of "
         "the defining equations per case); Model/DataPlane.v is a hand-written model of run_calculation / TransformFrameworkStep on "
         "abstract tables, tied by replaying observed runs",
-        "planner and registry lookup (which object a step works on) are not modelled: observed per run (footprints) and fed to the "
-        "model; framework conversion is the identity on abstract tables (C14); values inside pandas/pyarrow kernels are trusted",
+        "Model/Routing.v is a hand-written model of CfwManager.get_cfw_uuid and ComputeFrameworkExecutor.prepare_execute_step / "
+        "prepare_tfs_right_cfw (which object a step works on); tied per run: the footprints it computes from the exported plan "
+        "(with the iteration orders of the real required_uuids / tfs_ids sets) and the begin order must equal the observed ones; "
+        "the planner is not modelled here (plans are exported); framework conversion is the identity on abstract tables (C14); "
+        "values inside pandas/pyarrow kernels are trusted",
         "generated calculations compute c0 + sum coef_i * input_i on integers (nulls propagate)"]
     big = tier == "thorough"
     recs = [one(gen(rng)) for _ in range(1500 if big else 150)]
@@ -251,9 +312,8 @@ def run(rep: vlib.Reporter, tier: str, seed: int) -> None:
         dist["option_groups"] = dist.get("option_groups", 0) + bool(root.get("cols_by_opt"))
         g = len(spec["groups"])
         dist["groups_hist"][g] = dist["groups_hist"].get(g, 0) + 1
-        kf = bool(kf_tfs_partial_requirement(r["plan"]) or kf_framework_roundtrip(r["plan"]) or kf_tfs_missing(r["plan"]))
-        dist["planner_kf"] += kf
-        r["kf"] = kf
+        r["kf_static"] = bool(kf_tfs_partial_requirement(r["plan"]) or kf_tfs_missing(r["plan"]))
+        r["kf_py_roundtrip"] = bool(kf_framework_roundtrip(r["plan"]))
         if g >= 3:
             rep.nontrivial(("spec", spec))
         head = f"({cq_nat(r['n'])}, {cq_src(ids, root)}, {cq_defs(ids, spec)}"
@@ -267,6 +327,21 @@ def run(rep: vlib.Reporter, tier: str, seed: int) -> None:
     bad_e, info_e = vlib.run_cases("C02", "exec", REQ, "chk_exec", ex_terms, extra_defs=EXTRA,
                                    case_type="(nat * env * list fdef * list action) * (bool * list (nat * nat * column))", shard=100)
     bad_e_set = set(ex_idx[k] for k in bad_e)
+    rt_idx = [i for i, r in enumerate(recs) if r.get("route")]
+    rt_terms = [f"({cq_list(recs[i]['route'][0])}, {cq_list(recs[i]['route'][1])})" for i in rt_idx]
+    bad_r, info_r = vlib.run_cases("C02", "route", REQ, "chk_route", rt_terms, extra_defs=EXTRA,
+                                   case_type="list rstep * list foot", shard=100) if rt_terms else ([], {})
+    amb_r, _ = vlib.run_cases("C02", "amb", REQ, "chk_noamb", rt_terms, extra_defs=EXTRA,
+                              case_type="list rstep * list foot", shard=100) if rt_terms else ([], {})
+    amb_set = set(rt_idx[k] for k in amb_r)
+    py_rt = set(i for i in rt_idx if recs[i].get("kf_py_roundtrip"))
+    # the round-trip domain is decided in Coq on the run itself (a deciding registry lookup with two matching objects);
+    # the static Python predicate is only the fallback for runs the routing model does not cover
+    for i, r in enumerate(recs):
+        if "prepare_exc" in r:
+            continue
+        r["kf"] = bool(r.get("kf_static") or (i in amb_set if r.get("route") else r.get("kf_py_roundtrip")))
+        dist["planner_kf"] += r["kf"]
 
     def report(i: int, what: str, key: str) -> bool:
         r = recs[i]
@@ -292,6 +367,13 @@ def run(rep: vlib.Reporter, tier: str, seed: int) -> None:
         if i in bad_e_set and r["status"] == "ok":
             found |= report(i, "the observed run (step order, objects, copies) is not an execution of the data-plane model with the "
                                "same outcome", f"exec-model:{key}")
+    for k in bad_r:
+        i = rt_idx[k]
+        found |= report(i, "the objects the steps worked on (observed footprints) are not the ones Model/Routing.v computes from the plan "
+                           "and the begin order", f"route-model:{json.dumps(recs[i]['spec'], sort_keys=True)}")
+    rep.add("routing_model", {**info_r, "cases": len(rt_terms), "disagreements": len(bad_r), "ambiguous_lookup_runs (Coq)": len(amb_set),
+                              "python kf_framework_roundtrip": len(py_rt), "ambiguous but not python-kf": len(amb_set - py_rt),
+                              "python-kf but not ambiguous at run time": len(py_rt - amb_set)})
     rep.count(len(recs))
     rep.add("distribution", dist)
     rep.add("values_vs_ref_eval", {**info_v, "cases": len(val_terms), "disagreements": len(bad_v)})
